@@ -40,6 +40,8 @@ pub enum TokOp {
     Lookup { l: usize, query: String },
     /// SentenceSplitter::with_checker(dict.lexicon()).split(text)  (ConcSim only; TokSim ignores it)
     Sentences { text: String },
+    /// the tokenizer's debug flag: dumps go to the (discarded) standard output, results must not change
+    SetDebug { t: usize, on: bool },
 }
 
 #[derive(Clone, Debug, Serialize, Deserialize)]
@@ -102,7 +104,7 @@ pub fn gen_ops(rng: &mut Rng, world: &WorldSpec, n_tok: usize, n_lists: usize, s
     for _ in 0..steps {
         let t = rng.below(n_tok);
         let l = rng.below(n_lists);
-        match rng.weighted(&[45, 8, 6, 10, if heavy { 3 } else { 0 }, if heavy { 2 } else { 0 }, 5, 10, 4, 5, 2]) {
+        match rng.weighted(&[45, 8, 6, 10, if heavy { 3 } else { 0 }, if heavy { 2 } else { 0 }, 5, 10, 4, 5, 2, 2, if world.two_level.is_some() { 4 } else { 0 }]) {
             0 => {
                 ops.push(TokOp::Analyse { t, text: gen_text(rng, &world.keys) });
                 if rng.chance(17, 20) {
@@ -133,6 +135,18 @@ pub fn gen_ops(rng: &mut Rng, world: &WorldSpec, n_tok: usize, n_lists: usize, s
             }
             8 => ops.push(TokOp::Clear { l }),
             9 => ops.push(TokOp::Reread { l }),
+            11 => ops.push(TokOp::SetDebug { t, on: rng.chance(2, 3) }),
+            12 => {
+                // analyse a text with the two-level word, split it on demand, then split the result again
+                let w = world.two_level.clone().unwrap_or_default();
+                let text = format!("{}{}{}", if rng.chance(1, 2) { gen_text(rng, &world.keys) } else { String::new() }, w, if rng.chance(1, 2) { "。" } else { "" });
+                let o1 = (l + 1) % n_lists.max(1);
+                let o2 = (l + 2) % n_lists.max(1);
+                ops.push(TokOp::Analyse { t, text });
+                ops.push(TokOp::Collect { t, l });
+                ops.push(TokOp::SplitInto { l, idx: 0, mode: "B".into(), out: o1 });
+                ops.push(TokOp::SplitInto { l: o1, idx: 0, mode: "A".into(), out: o2 });
+            }
             _ => {
                 let q = if world.keys.is_empty() { "あ".to_string() } else { rng.pick(&world.keys).clone() };
                 ops.push(TokOp::Lookup { l, query: q });
@@ -276,6 +290,7 @@ struct TokState {
     /// Some(..) after an analysis that returned Ok and has not been collected
     ready: Option<Ready>,
     prev_len: usize,
+    debug: bool,
 }
 
 #[derive(Clone)]
@@ -292,6 +307,22 @@ struct Source {
     text: String,
     mode: Mode,
     req: Option<InfoSubset>,
+    /// on-demand splits applied since the analysis: (mode, index) per level
+    path: Vec<(Mode, usize)>,
+}
+
+/// the list a history-free run produces for this derivation: fresh analysis, then the same chain of splits
+fn derive_fresh(d: &Arc<JapaneseDictionary>, s: &Source) -> Result<MorphemeList<Arc<JapaneseDictionary>>, String> {
+    let mut cur = fresh_analyse(d, s.mode, s.req, &s.text)?;
+    for (m, idx) in s.path.iter() {
+        let mut o = MorphemeList::empty(d.clone());
+        let did = cur.split_into(*m, *idx, &mut o).map_err(|e| format!("{}", e))?;
+        if !did {
+            return Err("derivation chain does not split on fresh objects".into());
+        }
+        cur = o;
+    }
+    Ok(cur)
 }
 
 struct ListState {
@@ -366,6 +397,7 @@ pub fn execute(case: &TokCase, stats: &mut Stats, work: &Path) -> Option<Violati
                 pending: None,
                 ready: None,
                 prev_len: 0,
+                debug: false,
             }
         })
         .collect();
@@ -407,6 +439,11 @@ pub fn execute(case: &TokCase, stats: &mut Stats, work: &Path) -> Option<Violati
                 toks[*t % case.n_tok.max(1)].pending = Some(fault.clone());
                 stats.inc("op.arm");
             }
+            TokOp::SetDebug { t, on } => {
+                toks[*t % case.n_tok.max(1)].debug = *on;
+                history_ops += 1;
+                stats.inc("op.set_debug");
+            }
             TokOp::Analyse { t, text } => {
                 let ts = &mut toks[*t % case.n_tok.max(1)];
                 stats.inc("op.analyse");
@@ -415,6 +452,12 @@ pub fn execute(case: &TokCase, stats: &mut Stats, work: &Path) -> Option<Violati
                 let was_armed = armed.is_some();
                 ts.sim.ctl.arm(armed);
                 ts.ready = None;
+                // lattice dumps of long texts are enormous: the flag is only honoured for short ones
+                let dbg = ts.debug && text.len() <= 600;
+                ts.tok.set_debug(dbg);
+                if dbg {
+                    stats.inc("reach.debug_analyses");
+                }
                 let r = catch(|| {
                     ts.tok.reset().push_str(text);
                     ts.tok.do_tokenize()
@@ -583,7 +626,7 @@ pub fn execute(case: &TokCase, stats: &mut Stats, work: &Path) -> Option<Violati
                     );
                 }
                 ls.shown = Some((sp, fields));
-                ls.source = Some(Source { text: ready.text, mode: ready.mode, req: ready.req });
+                ls.source = Some(Source { text: ready.text, mode: ready.mode, req: ready.req, path: vec![] });
             }
             TokOp::SplitInto { l, idx, mode, out } => {
                 let li = *l % case.n_lists.max(1);
@@ -648,7 +691,7 @@ pub fn execute(case: &TokCase, stats: &mut Stats, work: &Path) -> Option<Violati
                         let d = dict.clone();
                         let s2 = src.clone();
                         let rr = catch(move || {
-                            let fl = fresh_analyse(&d, s2.mode, s2.req, &s2.text)?;
+                            let fl = derive_fresh(&d, &s2)?;
                             let mut fo = MorphemeList::empty(d.clone());
                             fl.split_into(m, idx, &mut fo).map_err(|e| format!("{}", e))
                         });
@@ -668,7 +711,7 @@ pub fn execute(case: &TokCase, stats: &mut Stats, work: &Path) -> Option<Violati
                 let s2 = src.clone();
                 let fields_a = a.shown.as_ref().map(|x| x.1).unwrap_or(InfoSubset::empty());
                 let rr = catch(move || -> Result<(bool, ListProj), String> {
-                    let fl = fresh_analyse(&d, s2.mode, s2.req, &s2.text)?;
+                    let fl = derive_fresh(&d, &s2)?;
                     let mut fo = MorphemeList::empty(d.clone());
                     let did = fl.split_into(m, idx, &mut fo).map_err(|e| format!("{}", e))?;
                     Ok((did, project(&fo, fields_a)))
@@ -706,7 +749,13 @@ pub fn execute(case: &TokCase, stats: &mut Stats, work: &Path) -> Option<Violati
                         return viol("result-differs-from-fresh", &format!("split.{}", field), oi, json!({"morpheme": mi, "subject": x, "reference": y}));
                     }
                     b.shown = Some((sp, fields_a));
-                    b.source = None;
+                    // the result can be split further: its derivation is the parent's plus this step
+                    let mut chain = src.clone();
+                    chain.path.push((m, idx));
+                    if chain.path.len() > 1 {
+                        stats.inc("reach.second_level_split");
+                    }
+                    b.source = Some(chain);
                 } else {
                     b.shown = None;
                     b.source = None;
